@@ -98,7 +98,22 @@ func planC17(tier string, seed int64) (*core.Plan, error) {
 				}
 			}
 		}
-		lookupCases(l, tier, r, emit)
+	}
+	// keyed lookups (second half of the statement): lists of every key type and compound keys in
+	// every store kind, asked for every entry that is there and for near-miss keys that are not
+	p.Stages = []core.Stage{{Name: "order", EvalMod: "EvalValues", EvalEnv: p.EvalEnv, Cases: p.Cases}}
+	p.Cases = nil
+	nl := 40
+	if tier == "thorough" {
+		nl = 600
+	}
+	for _, fname := range []string{"S2", "S7", "S0"} {
+		st, err := findStage(fname, r, nl, false)
+		if err != nil {
+			return nil, err
+		}
+		st.Name = "lookup-" + fname
+		p.Stages = append(p.Stages, st)
 	}
 	return p, nil
 }
